@@ -140,7 +140,7 @@ def build(w: dict) -> xarray.Dataset:
         if dc["bounds"]:
             attrs["bounds"] = dc["name"] + "_bnds"
             ds[dc["name"] + "_bnds"] = xarray.DataArray(numpy.array(dc["bounds"], dtype="f8"), dims=[dc["dim"], "zbnd"])
-        da = xarray.DataArray(numpy.array(dc["vals"], dtype="f8"), dims=[dc["dim"]], attrs=attrs)
+        da = xarray.DataArray(numpy.array(dc["vals"], dtype=dc.get("dtype", "f8")), dims=[dc["dim"]], attrs=attrs)
         if dc["name"] == dc["dim"]:
             ds = ds.assign_coords({dc["name"]: da})
         else:
@@ -178,7 +178,7 @@ def proj_D(w: dict, ds: xarray.Dataset) -> dict:
 
 def tlc_world(w: dict) -> dict:
     return {"conv": w["conv"], "nonspatial": ["t"],
-            "D": {"depths": w["depths"],
+            "D": {"depths": [{k: v for k, v in dc.items() if k != "dtype"} for dc in w["depths"]],      # (the storage type is not part of the abstract coordinate)
                   "vars": [{k: v[k] for k in ("name", "dims", "shape", "data")} for v in w["depthvars"]]}}
 
 
@@ -219,6 +219,18 @@ def execute(case: dict) -> dict:
                 cur = r
                 return out
             e["obs"] = outcome(norm)
+        elif e["a"] == "Save":
+            def save():
+                # the dataset as it stands (normalised or not) is written with the EMS fixes and read back
+                import tempfile
+                from . import tlc as _tlc
+                with tempfile.TemporaryDirectory(dir=str(_tlc.WORK)) as td:
+                    p = td + "/saved.nc"
+                    conv_of(cur).to_netcdf(p)
+                    r = xarray.open_dataset(p).load()
+                    r.close()
+                return {"D": proj_D(w, r)}
+            e["obs"] = outcome(save)
         elif e["a"] == "SetPositive":
             def setpos():
                 cur[names[e["k"] - 1]].attrs["positive"] = e["value"]
@@ -261,7 +273,7 @@ def cases(tier: str, seed: int, *, kinds=("norm", "floor")) -> list[dict]:
     out = _cases(tier, seed, kinds=kinds)
     vias = ["memory", "file", "memory", "dask", "emsopen"]       # how the dataset is held (viafile.hold)
     for k, c in enumerate(out):
-        c["world"]["via"] = vias[k % len(vias)]
+        c["world"]["via"] = c["world"].get("pin_via") or vias[k % len(vias)]
         if k % 3 == 1:
             c["world"]["depth_as"] = "vars"
         if k % 2 == 0:
@@ -322,6 +334,20 @@ def _cases(tier: str, seed: int, *, kinds=("norm", "floor")) -> list[dict]:
         if "floor" in kinds:
             ev += [{"a": "OceanFloor", "via": "accessor"}]
         out.append({"src": "gen", "world": w, "events": ev})
+    if "norm" in kinds:
+        # a depth coordinate stored in a narrower type (bytes) than its bounds (doubles, reaching beyond a byte), held in
+        # a file; normalised with a change of sign, then saved and read back: the file holds what the dataset held
+        for conv in ("cf1d", "shoc_simple", "ugrid"):
+            w = make_world(conv, rng, two=False, K=6)
+            d0 = depth_coord(w["depths"][0]["name"], w["depths"][0]["dim"], 6, True, False, True, True)
+            d0["dtype"] = "i1"
+            d0["bounds"] = [[v - 2, v + 10] for v in d0["vals"]]
+            w = _with_coord(w, d0)
+            w["pin_via"] = "file"
+            out.append({"src": "gen", "world": w, "events": [
+                {"a": "Touch", "via": "accessor"}, {"a": "Save", "via": "accessor"},
+                {"a": "Normalize", "pd": "no", "d2s": "none", "via": "accessor"}, {"a": "Save", "via": "accessor"},
+                {"a": "Normalize", "pd": "yes", "d2s": "yes", "via": "function"}, {"a": "Save", "via": "accessor"}]})
     # three depth coordinates, two of them on one dimension and listed before the third
     for conv in [c for c in W.ALL_CONVS if c not in DEPTH_NAMES]:
         for rep in range(1 if tier == "quick" else 3):
